@@ -1,17 +1,22 @@
 from common import COMMON_TB
 
 CFG = {
-    "technique": "Lean 4 theorems about an executable model of findEligibleOutputs / the input sources / the txauthor loop "
-                 "+ differential run of a real wallet.Wallet (fake chain backend) + script-engine re-verification of every signed input",
-    "level_text": "Selection clauses of C06 (inputs eligible, distinct, never reused after publication for any sequence of sends, "
-                  "ineligible or repeated explicit selections refused) are Lean theorems for every wallet view, request, strategy "
-                  "(every shuffle) and fee rate; the model is tied to wallet/createtx.go, wallet/txauthor and wtxmgr by a "
-                  "differential run of the real Wallet on generated histories (all address types, two accounts, spends, reorgs, "
-                  "locks, leases, coinbase maturity, chained sends). Signature validity is executed on the real result with "
-                  "txscript.StandardVerifyFlags against the harness's own record of the spent outputs, not proved.",
-    "level_note": "Partial: signatures are executed, not proved. Trusted: Lean kernel; the hand model CoinSelect.lean (tied by "
-                  "correspondence on explored inputs only); the harness ledger that turns the fed history into a wallet view "
-                  "(C01's statement, used here as an assumption); txscript as signature oracle.",
+    "technique": "Lean 4 theorems about an executable model of findEligibleOutputs / the input sources / the txauthor loop / the "
+                 "txCreator lock guard + generated structure facts of wallet/*.go (createtx-sites extractor) + differential run of a "
+                 "real wallet.Wallet (fake chain backend, wallet lock ops) + script-engine re-verification of every signed input "
+                 "+ reuse oracle over the backend's own record of accepted transactions",
+    "level_text": "Lean theorems for every view, request, strategy (every shuffle), fee rate and lock state: inputs eligible, "
+                  "distinct, never reused after publication over any request sequence, bad explicit selections refused; a locked "
+                  "non-watch-only wallet refuses every request, dry runs too (C06_locked_refused), a successful non-dry result took "
+                  "the signing branch (C06_signed_or_refused; C06_txCreator_ok/_inputs). Tied to wallet/createtx.go, txauthor, "
+                  "wtxmgr by a differential run of the real Wallet (all address types, reorgs, leases, maturity, chained sends, "
+                  "Lock / timed Unlock / timeout / wrong passphrase x four APIs). Signatures are executed, not proved.",
+    "level_note": "Partial: signature validity is executed on every simple/send result (txscript StandardVerifyFlags; key "
+                  "create.unsigned-result-while-locked), not proved. 'Published' is judged from the fake backend's own "
+                  "SendRawTransaction record, whatever the wallet returned (key publish.input-reused-after-backend-accepted). "
+                  "Generated facts, re-extracted every run: C06_generated_serialised, C06_generated_lock_guard "
+                  "(holdUnlockErrorIsFatal). Trusted: Lean kernel; hand model CoinSelect.lean (tied on explored inputs only); "
+                  "harness ledger as wallet view (C01 assumed); txscript; the syntactic extractor. Concurrency is not executed.",
     "lean_props": ["BtcwVerif.Props.C06"],
     "engines": ["walletchain-tx"],
     "extractors": [{"name": "createtx-sites", "out": "CreateTxSitesGen.lean"}],
@@ -19,7 +24,7 @@ CFG = {
         "hand-written model BtcwVerif/Model/CoinSelect.lean of wallet/createtx.go + txauthor.NewUnsignedTransaction + txsizes/txrules arithmetic (tied by differential run)",
         "the view handed to the model is derived from the history the harness fed to the wallet (ledger in lean/Driver/EngWalletTx.lean), i.e. wtxmgr is assumed to report ledger truth (C01)",
         "btcd txscript engine with StandardVerifyFlags as the oracle for signature validity; secp256k1/schnorr not modelled",
-        "the createTxRequests channel is taken for what it provides (one txToOutputs at a time); its structure (single sender CreateSimpleTx, single receiver = single txToOutputs caller txCreator, spawned once by Start, no nested go/closure) is re-extracted from wallet/*.go on every run (harness/cmd/vxextract/createtxsites.go, syntactic) and checked by C06_generated_serialised; the same extractor reads off that every holdUnlock() error in txCreator ends the request before txToOutputs (C06_generated_lock_guard), the source fact behind CoinSelect.txCreator",
+        "the createTxRequests channel is taken for what it provides (one txToOutputs at a time); its structure (single sender CreateSimpleTx, single receiver = single txToOutputs caller txCreator, spawned once by Start, no nested go/closure) is re-extracted from wallet/*.go on every run (harness/cmd/vxextract/createtxsites.go, syntactic) and checked by C06_generated_serialised; the same extractor reads off that every holdUnlock() error in txCreator ends the request before txToOutputs (generated fact CreateTxSitesGen.holdUnlockErrorIsFatal, C06_generated_lock_guard), the source fact behind CoinSelect.txCreator",
         "wallet lock state: the model's LockState is driven by the harness's own commands (Lock, Unlock with/without timeout, timeout firing, wrong passphrase); watch-only wallets/accounts are not generated, so every simple/send result must verify",
         "backend side of 'published': the fake backend's own record of SendRawTransaction calls and answers (harness/engines/walletchaintx/backend.go), independent of what the wallet returned",
     ],
@@ -28,5 +33,7 @@ CFG = {
         "the wallet view lists each credited outpoint once (hypothesis of C06_inputs_distinct / C06_no_reuse)",
         "Go's unstable sort: order among equal amounts is unspecified; the generator uses pairwise distinct amounts",
         "random strategy: the shuffle is a model parameter; the differential compares success/failure and checks the chosen set against eligibility on the Go side",
+        "lock clause: the wallet is not watch-only as a whole (hypothesis managerWatchOnly = false of C06_locked_refused / C06_signed_or_refused) and the account owns its private keys; while locked isWatchOnlyAccount is true for every account (quirk kept in the model)",
+        "requests are issued one at a time (the serialisation through createTxRequests is a generated structural fact, not an executed race)",
     ],
 }
